@@ -365,7 +365,7 @@ func (p *fcgiPeer) prepare() {
 }
 
 var hostileKinds = []string{"bad-version", "length-past-eof", "eof-in-header", "eof-in-content", "eof-in-padding", "status-out-of-range", "status-negative",
-	"status-not-a-number", "no-header-terminator", "huge-header-line", "header-without-colon", "unknown-record-type", "end-request-first", "garbage", "empty-everything", "content-length-lies"}
+	"status-not-a-number", "no-header-terminator", "huge-header-line", "header-without-colon", "unknown-record-type", "end-request-first", "garbage", "empty-everything", "content-length-lies", "short-end-request"}
 
 func hostileOutput(kind string, id uint16, stream []byte, st *sim.Stream) ([][]byte, bool) {
 	end := fcgiRecord(fcgiEnd, id, make([]byte, 8), 0)
@@ -407,6 +407,14 @@ func hostileOutput(kind string, id uint16, stream []byte, st *sim.Stream) ([][]b
 		return [][]byte{fcgiRecord(byte(9+st.Draw(240)), id, []byte("???"), 1), ok, eos, end}, true
 	case "end-request-first":
 		return [][]byte{end}, true
+	case "short-end-request":
+		// the closing record carries fewer than the eight bytes it is specified with (or more)
+		n := []int{0, 1, 3, 4, 7, 9, 300}[st.Draw(7)]
+		short := fcgiRecord(fcgiEnd, id, make([]byte, n), st.Draw(3))
+		if st.Draw(2) == 0 {
+			return [][]byte{short}, true
+		}
+		return [][]byte{ok, eos, short}, true
 	case "garbage":
 		g := make([]byte, 1+st.Draw(64))
 		for i := range g {
@@ -581,6 +589,9 @@ var fcgiPaths = []struct{ path, script, info string }{
 	{"/app/x.php/Washington,_D.C.", "/app/x.php", "/Washington,_D.C."},
 	{"/app/x.php/etc...", "/app/x.php", "/etc..."},
 	{"/app/x.php/title%20", "/app/x.php", "/title "},
+	// path info that is not in cleaned form
+	{"/app/x.php/admin/", "/app/x.php", "/admin/"},
+	{"/app/x.php/a//b", "/app/x.php", "/a//b"},
 	// letters whose lower-case form has another byte length (K U+212A: 3 -> 1 bytes, U+023A: 2 -> 3 bytes)
 	{"/app/%E2%84%AA/x.php/extra", "/app/\u212a/x.php", "/extra"},
 	{"/app/%C8%BA.php", "/app/\u023a.php", ""},
@@ -787,6 +798,12 @@ func (r *fcgiRig) addReq(i int) {
 	if r.mode == "C13" && !q.chunked && len(q.body) > 0 && len(q.cl.segs) > 1 && sc.hostile == "" && st.Draw(8) == 0 {
 		// the client closes its connection instead of sending the last piece of its body
 		q.cl.abortAt, q.cl.abortFin = len(q.cl.segs)-1, true
+	}
+	if !r.streamRun && sc.hostile == "" && st.Draw(4) == 0 {
+		// a client that reads slowly: a large response waits half-copied inside the FastCGI client
+		// while other requests are served
+		q.cl.window = 4096
+		r.c.Probe("slow-reading-client")
 	}
 	r.reqs = append(r.reqs, q)
 }
